@@ -172,3 +172,19 @@ Theorem c13_recorded_crash_run_is_path :
                         (mesh_world n probe (fun i => nth (Z.to_nat i) ords []), []) gs = Some c.
 Proof. exact ok_cworld_sound. Qed.
 Print Assumptions c13_recorded_crash_run_is_path.
+
+(** the hypotheses of the node-level detection theorems are satisfiable: probe 1, no ack,
+    ack timeout => SUSPECT, suspicion timeout => DEAD, a late ping from 1 does not revive it *)
+Example detection_example :
+  let c := mkCfg 0 1000000000 500000000 5000000000 3 true in
+  let s0 := init_state [1; 2] [1; 2] in
+  let s1 := fst (step c 1000000000 s0 (ITick [true; true] [])) in
+  let s2 := fst (step c 1500000000 s1 (IIndirect (Some 1) [2])) in
+  let s3 := fst (step c 6500000000 s2 (ISusp (Some 1))) in
+  let s4 := fst (step c 7000000000 s3 (IPing (Some 1) [])) in
+  (is_member 1 (members s1), packs_get 1 (packs s1),
+   option_map m_state (find_member 1 (members s2)),
+   option_map m_state (find_member 1 (members s3)),
+   option_map m_state (find_member 1 (members s4)))
+  = (true, Some 0, Some Suspect, Some Dead, Some Dead).
+Proof. vm_compute. reflexivity. Qed.
